@@ -1,0 +1,28 @@
+//go:build verif
+// +build verif
+
+package core
+
+import "context"
+
+// Verification hooks (build tag "verif"): the existing test parameters of the bundle
+// upload / download implementation (entries per index file) made reachable from an
+// external harness. No behaviour is changed.
+
+// VerifUpload is implUpload with a chosen number of entries per index file.
+func VerifUpload(ctx context.Context, bundle *Bundle, entriesPerFile uint, getKeys func() ([]string, error), opts ...Option) error {
+	return implUpload(ctx, bundle, entriesPerFile, getKeys, opts...)
+}
+
+// VerifPublish is implPublish with a chosen number of entries per index file.
+func VerifPublish(ctx context.Context, bundle *Bundle, entriesPerFile uint, selectionPredicate func(string) (bool, error)) error {
+	return implPublish(ctx, bundle, entriesPerFile, selectionPredicate)
+}
+
+// VerifDownloadMetadata is implPublishMetadata (to memory) with a chosen number of entries per index file.
+func VerifDownloadMetadata(ctx context.Context, bundle *Bundle, entriesPerFile uint) error {
+	return implPublishMetadata(ctx, bundle, false, entriesPerFile)
+}
+
+// VerifDefaultEntriesPerFile is the production number of entries per index file.
+const VerifDefaultEntriesPerFile = defaultBundleEntriesPerFile
